@@ -138,11 +138,15 @@ func (ex *Exec) fireDueCallbacks() {
 
 // advanceTime moves the clock to the earliest armed deadline and fires that
 // timer.  Returns false if no timer is armed.
-func (ex *Exec) advanceTime() bool {
+func (ex *Exec) advanceTime(onlyCallbacks ...bool) bool {
+	ex.idleSpins++
+	if ex.idleSpins > 20000 {
+		ex.end("budget", "more than 20000 timer firings while blocked @ "+ex.stack())
+	}
 	var armed []*timerState
 	for _, c := range ex.timers {
 		ts := c.Aux.(*timerState)
-		if ts.armed {
+		if ts.armed && (len(onlyCallbacks) == 0 || !onlyCallbacks[0] || ts.fn != nil) {
 			armed = append(armed, ts)
 		}
 	}
